@@ -18,6 +18,7 @@ import Gama.Lemmas.CovCholPD
 import Gama.Lemmas.CovBandMat
 import Gama.Lemmas.CovBridge
 import Gama.Lemmas.CovAgree
+import Gama.Lemmas.CovNotPD
 import Mathlib.Analysis.SpecialFunctions.Sqrt
 import Mathlib.Tactic.NormNum
 namespace Gama.Props.C10
@@ -196,6 +197,38 @@ theorem C10_bandchol_error_kinds (C : CovMat K) (e : Err)
     (h : (letI := fieldScalar K SqrtFn.sq; cholDec C) = .error e) :
     (e = .BadRank ∧ C.dim = 0) ∨ e = .NonPositiveDefinite :=
   cholDec_error_kinds C e h
+
+/-- **not positive definite ⇒ rejected** (the clause as written).  If the symmetric matrix read from a
+    well-formed `CovMat` is not positive definite — some vector `d ≠ 0` has `dᵀ C d ≤ 0` — then
+    `CovMat::cholDec` (dense path: gso, svd, cholesky through `Adj::choldec`) throws
+    `NonPositiveDefinite`, and `BlockDiagonal::cholDec` (sparse path: envelope through
+    `Homogenization::run`) returns the block as rejected, for every tolerance `tol > 0` (the code's is
+    `1e-14`).  Exact-arithmetic model: some pivot is `≤ 0`, hence `≤ N·ε·max diag` resp. `< tol`.
+    (`tol = 0` would NOT do for the sparse test `pivot < tol`: a pivot 0 passes it and the row is then
+    divided by `sqrt 0`.)  Conversely every accepted matrix is positive definite. -/
+theorem C10_not_pd_rejected {C : CovMat K} (hC : C.WF) (hN : 1 ≤ C.dim)
+    (hsq : ∀ x : K, 0 < x → SqrtFn.sq x * SqrtFn.sq x = x ∧ 0 < SqrtFn.sq x) (tol : K) (htol : 0 < tol) :
+    letI := fieldScalar K SqrtFn.sq
+    ((∃ d : Nat → K, (∃ i, 1 ≤ i ∧ i ≤ C.dim ∧ d i ≠ 0) ∧
+        ∑ i ∈ Finset.Icc 1 C.dim, ∑ j ∈ Finset.Icc 1 C.dim, d i * C.get i j * d j ≤ 0) →
+      cholDec C = .error .NonPositiveDefinite ∧ adjCholdec C = .error .NonPositiveDefinite ∧
+      ∃ C', bdCholBlock tol C = .error C') ∧
+    (∀ F, (cholDec C = .ok F ∨ bdCholBlock tol C = .ok F) →
+      ∀ d : Nat → K, (∃ i, 1 ≤ i ∧ i ≤ C.dim ∧ d i ≠ 0) →
+        0 < ∑ i ∈ Finset.Icc 1 C.dim, ∑ j ∈ Finset.Icc 1 C.dim, d i * C.get i j * d j) := by
+  refine ⟨fun h => ⟨not_pd_rejected_dense hC hN h, ?_, not_pd_rejected_sparse hsq hC tol htol h⟩, ?_⟩
+  · exact (adjCholdec_error_iff C _).mpr (not_pd_rejected_dense hC hN h)
+  · intro F hF d hd
+    rcases hF with hF | hF
+    · exact cholDec_accepts_posdef hC hF d hd
+    · exact bdCholBlock_accepts_posdef hsq hC tol htol hF d hd
+
+/-- non-vacuity of `C10_not_pd_rejected`: `[[1,2],[2,1]]` with `d = (1,-1)` has `dᵀCd = -2 ≤ 0` -/
+example : (⟨2, 1, #[1, 2, 1]⟩ : CovMat ℚ).WF ∧ 1 ≤ (⟨2, 1, #[1, 2, 1]⟩ : CovMat ℚ).dim ∧
+    ∃ d : Nat → ℚ, (∃ i, 1 ≤ i ∧ i ≤ 2 ∧ d i ≠ 0) ∧
+      ∑ i ∈ Finset.Icc 1 2, ∑ j ∈ Finset.Icc 1 2, d i * (⟨2, 1, #[1, 2, 1]⟩ : CovMat ℚ).get i j * d j ≤ 0 := by
+  refine ⟨⟨by decide, by decide⟩, by decide, fun i => if i = 1 then 1 else -1, ⟨1, by decide, by decide, by decide⟩, ?_⟩
+  decide +kernel
 
 /-- non-vacuity: a 3×3 band-1 SPD matrix (packed `4 2 | 5 2 | 6`) is well formed and is factored
     (`D = 4, 4, 5`, `L₂₁ = L₃₂ = 1/2`) by the model run with the field operations of ℚ -/
